@@ -110,9 +110,10 @@ enum Out {
 }
 
 fn run_real(w: &mut World, idx: usize, op: &Op, dev: &mut RecDevice) -> Out {
-    let nid = w.ids[idx];
-    let store = &w.store;
-    let cx = &mut w.cx;
+    run_op(&w.store, &mut w.cx, w.ids[idx], op, dev)
+}
+
+fn run_op<C: cameleon_genapi::CacheStore>(store: &DefaultNodeStore, cx: &mut ValueCtxt<DefaultValueStore, C>, nid: NodeId, op: &Op, dev: &mut RecDevice) -> Out {
     let r = catch(|| -> Result<Out, cameleon_genapi::GenApiError> {
         Ok(match op {
             Op::IntValue => Out::Int(nid.expect_iinteger_kind(store)?.value(dev, store, cx)?),
@@ -704,12 +705,300 @@ fn float_specials() -> Vec<u64> {
     v
 }
 
+
+// ---------- second pass: CACHING ON (implementation-only oracles) ----------
+// The statement's clause "what reaches the device is exactly the image of the value; each
+// access touches exactly [address, address+length)" must also hold with the DEFAULT cache
+// store.  One register P (int/float/string/raw; default=WriteThrough / WriteThrough /
+// WriteAround / NoCache) plus an overlapping raw register Q at the same address WITHOUT any
+// declared invalidator.  Histories: writes, repeated identical writes, device bytes changed
+// behind the cache's back (through Q, or by poking the recording device), read-back after
+// every write.  Oracle: every successful set_value / IRegister::write appends exactly one W
+// entry (address, length, exact image) and the device range equals the image right after it;
+// refused writes and reads never write; bytes outside the register never change.
+
+#[derive(Clone, Debug)]
+struct CScenario {
+    kind: Kind,
+    len: usize,
+    be: bool,
+    signed: bool,
+    addr: i64,
+    /// "" (default), "WriteThrough", "WriteAround", "NoCache"
+    cachable: String,
+}
+
+#[derive(Clone, Debug)]
+enum CStep {
+    /// write through P (IntSet / FloatSet / StrSet / RegWrite)
+    Set(Op),
+    /// read P back through its typed interface
+    Read,
+    /// the device changes the register bytes itself
+    Poke(Vec<u8>),
+    /// another feature (raw register Q, no invalidator declared) writes the same bytes range
+    Overlap(Vec<u8>),
+}
+
+impl CScenario {
+    fn xml(&self) -> String {
+        let cach = if self.cachable.is_empty() { String::new() } else { format!("<Cachable>{}</Cachable>", self.cachable) };
+        let mut x = String::from(XML_HEAD);
+        x += &format!("<{} Name=\"P\"><Address>{}</Address><Length>{}</Length><AccessMode>RW</AccessMode><pPort>Device</pPort>{cach}", self.kind.tag(), self.addr, self.len);
+        if self.kind == Kind::IntReg {
+            x += if self.signed { "<Sign>Signed</Sign>" } else { "<Sign>Unsigned</Sign>" };
+        }
+        if matches!(self.kind, Kind::IntReg | Kind::FloatReg) {
+            x += if self.be { "<Endianess>BigEndian</Endianess>" } else { "<Endianess>LittleEndian</Endianess>" };
+        }
+        x += &format!("</{}>\n", self.kind.tag());
+        x += &format!("<Register Name=\"Q\"><Address>{}</Address><Length>{}</Length><AccessMode>RW</AccessMode><pPort>Device</pPort><Cachable>NoCache</Cachable></Register>\n", self.addr, self.len);
+        x += XML_TAIL;
+        x
+    }
+    fn read_op(&self) -> Op {
+        match self.kind { Kind::IntReg => Op::IntValue, Kind::FloatReg => Op::FloatValue, Kind::StringReg => Op::StrValue, Kind::Register => Op::RegRead(self.len) }
+    }
+    /// image a successful write must put on the device (None: any f32 NaN of that sign), or Err = must be refused
+    fn expect(&self, op: &Op) -> Result<Option<Vec<u8>>, &'static str> {
+        match op {
+            Op::IntSet(v) => Ok(Some(image_of(*v, self.len, self.be))),
+            Op::FloatSet(b) => {
+                if self.len == 8 { Ok(Some(image_of(*b as i64, 8, self.be))) }
+                else { Ok(soft_narrow(*b).map(|n| image_of(n as i64, 4, self.be))) }
+            }
+            Op::StrSet(v) => {
+                if v.is_ascii() && !v.contains('\0') && v.len() <= self.len {
+                    let mut img = v.as_bytes().to_vec();
+                    img.resize(self.len, 0);
+                    Ok(Some(img))
+                } else { Err("InvalidData") }
+            }
+            Op::RegWrite(d) => if d.len() == self.len { Ok(Some(d.clone())) } else { Err("InvalidBuffer") },
+            _ => unreachable!(),
+        }
+    }
+    fn to_json(&self, reg0: &[u8], steps: &[CStep]) -> Value {
+        json!({"cached": {
+            "kind": self.kind.tag(), "len": self.len, "be": self.be, "signed": self.signed, "addr": self.addr.to_string(), "cachable": self.cachable,
+            "reg0": hex(reg0),
+            "steps": steps.iter().map(|st| match st {
+                CStep::Set(op) => { let (n, a) = op_tokens(op); json!(["set", n, a]) }
+                CStep::Read => json!(["read", "", ""]),
+                CStep::Poke(b) => json!(["poke", "", hex(b)]),
+                CStep::Overlap(b) => json!(["overlap", "", hex(b)]),
+            }).collect::<Vec<_>>(),
+        }})
+    }
+    fn from_json(v: &Value) -> (CScenario, Vec<u8>, Vec<CStep>) {
+        let c = &v["cached"];
+        let sc = CScenario {
+            kind: match c["kind"].as_str().unwrap() { "IntReg" => Kind::IntReg, "FloatReg" => Kind::FloatReg, "StringReg" => Kind::StringReg, _ => Kind::Register },
+            len: c["len"].as_u64().unwrap() as usize, be: c["be"].as_bool().unwrap(), signed: c["signed"].as_bool().unwrap(),
+            addr: c["addr"].as_str().unwrap().parse().unwrap(), cachable: c["cachable"].as_str().unwrap().to_string(),
+        };
+        let steps = c["steps"].as_array().unwrap().iter().map(|st| {
+            let a = st[2].as_str().unwrap();
+            match st[0].as_str().unwrap() {
+                "read" => CStep::Read,
+                "poke" => CStep::Poke(unhex(a)),
+                "overlap" => CStep::Overlap(unhex(a)),
+                _ => CStep::Set(match st[1].as_str().unwrap() {
+                    "int.set" => Op::IntSet(a.parse().unwrap()),
+                    "float.set" => Op::FloatSet(u64::from_str_radix(a.trim_start_matches("f:"), 16).unwrap()),
+                    "str.set" => Op::StrSet(String::from_utf8(unhex(a)).unwrap()),
+                    _ => Op::RegWrite(unhex(a)),
+                }),
+            }
+        }).collect();
+        (sc, unhex(c["reg0"].as_str().unwrap()), steps)
+    }
+}
+
+const CPAD: usize = 3;
+
+/// Run one cached history; false when a violation was reported.
+fn run_cached_history(rep: &mut Report, sc: &CScenario, reg0: &[u8], steps: &[CStep], src: &str) -> bool {
+    let xml = sc.xml();
+    let (_, store, mut cx) = GenApiBuilder::<DefaultNodeStore>::default().build(&xml).expect("generated XML parses");
+    let p = store.id_by_name("P").expect("P");
+    let q = store.id_by_name("Q").expect("Q");
+    let mut img = vec![0x33u8; CPAD];
+    img.extend_from_slice(reg0);
+    img.extend(vec![0x44u8; CPAD]);
+    let mut dev = RecDevice::new(sc.addr - CPAD as i64, img.clone(), vec![]);
+    let cname = if sc.cachable.is_empty() { "default" } else { &sc.cachable };
+    let sig = |kind: &str| json!({"kind": kind, "cached": true, "node": sc.kind.tag(), "cachable": cname, "len": sc.len, "be": sc.be, "signed": sc.signed});
+    // value written last through P and not disturbed since (None: unknown / disturbed)
+    let mut clean_last: Option<Op> = None;
+    for (i, st) in steps.iter().enumerate() {
+        let reg_before = dev.img[CPAD..CPAD + sc.len].to_vec();
+        dev.log.clear();
+        let mut bad: Option<(&str, String)> = None;
+        let canon = format!("cached {} {} {} {} {cname} step{i} {:?} {}", sc.kind.tag(), sc.len, sc.be, sc.signed, st, hex(&reg_before));
+        match st {
+            CStep::Poke(b) => {
+                dev.img[CPAD..CPAD + sc.len].copy_from_slice(b);
+                clean_last = None;
+                rep.count("cached/poke-device");
+                continue;
+            }
+            CStep::Overlap(b) => {
+                let out = run_op(&store, &mut cx, q, &Op::RegWrite(b.clone()), &mut dev);
+                rep.case(&canon, out == Out::Unit);
+                rep.count("cached/overlapping-register-write");
+                clean_last = None;
+                if out != Out::Unit || dev.log != vec![Access { write: true, addr: sc.addr, len: sc.len, bytes: b.clone() }] || dev.img[CPAD..CPAD + sc.len] != b[..] {
+                    bad = Some(("raw-write", format!("step {i}: write through the overlapping NoCache register = {:?}, log {}", out, dev.log_str())));
+                }
+            }
+            CStep::Set(op) => {
+                let out = run_op(&store, &mut cx, p, op, &mut dev);
+                rep.case(&canon, out == Out::Unit);
+                rep.count(&format!("cached/{}/set", sc.kind.tag()));
+                rep.count(&format!("cached/cachable-{cname}"));
+                let reg_after = dev.img[CPAD..CPAD + sc.len].to_vec();
+                match sc.expect(op) {
+                    Err(cls) => {
+                        if !matches!(&out, Out::Err(c) if *c == cls) {
+                            bad = Some(("not-refused", format!("step {i}: {:?} = {:?}, expected Err({cls})", op, out)));
+                        } else if dev.writes() != 0 || reg_after != reg_before {
+                            bad = Some(("write-on-refusal", format!("step {i}: refused {:?} wrote: {}", op, dev.log_str())));
+                        }
+                    }
+                    Ok(exp) => {
+                        let w: Vec<&Access> = dev.log.iter().filter(|a| a.write).collect();
+                        if out != Out::Unit {
+                            bad = Some(("write-failed", format!("step {i}: {:?} = {:?}", op, out)));
+                        } else if w.len() != 1 || w[0].addr != sc.addr || w[0].len != sc.len || w[0].bytes != reg_after {
+                            bad = Some(("footprint", format!("step {i}: successful {:?} must be exactly one device write of [address, address+length): log {} (register on the device: {} -> {})", op, dev.log_str(), hex(&reg_before), hex(&reg_after))));
+                        } else {
+                            let img_ok = match &exp {
+                                Some(img) => reg_after == *img,
+                                None => { let g = dec_unsigned(&reg_after, sc.be) as u32; f32::from_bits(g).is_nan() },
+                            };
+                            if !img_ok {
+                                bad = Some(("image", format!("step {i}: after {:?} the device holds {}, expected image {:?}", op, hex(&reg_after), exp.as_ref().map(|b| hex(b)))));
+                            }
+                        }
+                        clean_last = if repeatable_readback(sc, op) { Some(op.clone()) } else { None };
+                    }
+                }
+            }
+            CStep::Read => {
+                let out = run_op(&store, &mut cx, p, &sc.read_op(), &mut dev);
+                rep.case(&canon, !matches!(out, Out::Err(_) | Out::Panic));
+                rep.count(&format!("cached/{}/read", sc.kind.tag()));
+                if dev.writes() != 0 || dev.img[CPAD..CPAD + sc.len] != reg_before[..] {
+                    bad = Some(("read-wrote", format!("step {i}: read wrote to the device: {}", dev.log_str())));
+                } else if matches!(out, Out::Err(_) | Out::Panic) {
+                    bad = Some(("read-failed", format!("step {i}: read = {:?}", out)));
+                } else if dev.log.iter().any(|a| a.addr != sc.addr || a.len != sc.len) || dev.log.len() > 1 {
+                    bad = Some(("footprint", format!("step {i}: read accesses {}", dev.log_str())));
+                } else if let Some(last) = &clean_last {
+                    // read-back right after an undisturbed write returns the written value
+                    let ok = match (last, &out) {
+                        (Op::IntSet(v), Out::Int(x)) => *x == expected_int(&image_of(*v, sc.len, sc.be), sc.be, sc.signed),
+                        (Op::FloatSet(b), Out::Float(x)) => {
+                            let xb = f64::from_bits(*b);
+                            if xb.is_nan() { f64::from_bits(*x).is_nan() }
+                            else if sc.len == 8 { x == b }
+                            else { soft_narrow(*b).and_then(soft_widen) == Some(*x) }
+                        }
+                        (Op::StrSet(v), Out::Str(x)) => x == v,
+                        (Op::RegWrite(d), Out::Bytes(x)) => x == d,
+                        _ => false,
+                    };
+                    if !ok {
+                        bad = Some(("readback", format!("step {i}: read-back after {:?} = {:?}", last, out)));
+                    }
+                }
+            }
+        }
+        if bad.is_none() && (dev.img[..CPAD] != img[..CPAD] || dev.img[CPAD + sc.len..] != img[CPAD + sc.len..] || !dev.outside.is_empty()) {
+            bad = Some(("frame", format!("step {i}: bytes outside [address, address+length) changed")));
+        }
+        if let Some((kind, what)) = bad {
+            rep.count(&format!("viol/cached/{kind}"));
+            rep.violation(sig(kind), &what, sc.to_json(reg0, &steps[..=i]));
+            let _ = src;
+            return false;
+        }
+    }
+    true
+}
+
+fn repeatable_readback(_sc: &CScenario, _op: &Op) -> bool {
+    true
+}
+
+fn cached_pass(rep: &mut Report, rng: &mut Rng, thorough: bool) {
+    let addrs: [i64; 4] = [0x300, 5, 0x7fff_ffff_ffff_f000, -48];
+    let n = if thorough { 4000 } else { 800 };
+    for gi in 0..n {
+        let kind = [Kind::IntReg, Kind::FloatReg, Kind::StringReg, Kind::Register][gi % 4];
+        let len = match kind {
+            Kind::IntReg => *rng.pick(&[1usize, 2, 4, 8]),
+            Kind::FloatReg => *rng.pick(&[4usize, 8]),
+            _ => 1 + rng.below(16) as usize,
+        };
+        let sc = CScenario { kind, len, be: rng.bool(), signed: rng.bool(), addr: addrs[(gi / 4) % addrs.len()],
+            cachable: ["", "WriteThrough", "", "WriteAround", "NoCache"][(gi / 4) % 5].to_string() };
+        let gen_set = |rng: &mut Rng| -> Op {
+            match kind {
+                Kind::IntReg => Op::IntSet(if rng.bool() { rng.interesting_i64() } else { rng.below(300) as i64 - 20 }),
+                Kind::FloatReg => Op::FloatSet(match rng.below(4) { 0 => rng.next_u64(), 1 => (f32::from_bits(rng.next_u64() as u32) as f64).to_bits(), 2 => 1.5f64.to_bits(), _ => ((rng.below(2000) as f64) / 8.0).to_bits() }),
+                Kind::StringReg => {
+                    let l = match rng.below(8) { 0 => len + 1, _ => rng.below(len as u64 + 1) as usize };
+                    let mut st: String = (0..l).map(|_| (0x20 + rng.below(0x5f)) as u8 as char).collect();
+                    if rng.chance(1, 12) { st.push('é'); }
+                    Op::StrSet(st)
+                }
+                Kind::Register => { let l = if rng.chance(1, 10) { len + 1 } else { len }; Op::RegWrite(rng.bytes(l)) }
+            }
+        };
+        let reg0 = rng.bytes(len);
+        let mut steps: Vec<CStep> = vec![];
+        let mut last_set: Option<Op> = None;
+        for _ in 0..(if thorough { 24 } else { 14 }) {
+            match rng.below(10) {
+                0 | 1 | 2 => {
+                    let op = gen_set(rng);
+                    last_set = Some(op.clone());
+                    steps.push(CStep::Set(op));
+                    steps.push(CStep::Read);
+                }
+                3 | 4 | 5 => {
+                    // the same value again (possibly after the device changed)
+                    let op = last_set.clone().unwrap_or_else(|| gen_set(rng));
+                    last_set = Some(op.clone());
+                    steps.push(CStep::Set(op));
+                    steps.push(CStep::Read);
+                }
+                6 => steps.push(CStep::Poke(rng.bytes(len))),
+                7 => steps.push(CStep::Overlap(rng.bytes(len))),
+                8 => steps.push(CStep::Read),
+                _ => {
+                    // write, disturb, write the same value again: the typical lost update
+                    let op = last_set.clone().unwrap_or_else(|| gen_set(rng));
+                    last_set = Some(op.clone());
+                    steps.push(CStep::Set(op.clone()));
+                    steps.push(if rng.bool() { CStep::Poke(rng.bytes(len)) } else { CStep::Overlap(rng.bytes(len)) });
+                    steps.push(CStep::Set(op));
+                    steps.push(CStep::Read);
+                }
+            }
+        }
+        run_cached_history(rep, &sc, &reg0, &steps, "cached");
+    }
+}
+
 fn main() {
     let args = parse_args();
     let mut rng = Rng::new(args.seed);
     let rep = Report::new(
         "C01",
-        "real nodes parsed from generated XML (kind x length incl. unsupported x byte order x sign x address), caching off, recording device; exhaustive values for 8-bit on every node and for 16-bit on one address per (byte order, sign) configuration in BOTH tiers (strided on the other addresses), boundary+random for 32/64-bit and floats, random device images, strings incl. unrepresentable ones, raw reads/writes with right and wrong buffer lengths, device refusals; a case is non-trivial when the access succeeds; distinct by full request line",
+        "real nodes parsed from generated XML (kind x length incl. unsupported x byte order x sign x address), caching off, recording device; exhaustive values for 8-bit on every node and for 16-bit on one address per (byte order, sign) configuration in BOTH tiers (strided on the other addresses), boundary+random for 32/64-bit and floats, random device images, strings incl. unrepresentable ones, raw reads/writes with right and wrong buffer lengths, device refusals; second pass with CACHING ON (default cache store; default/WriteThrough/WriteAround/NoCache; int, float, string, raw registers; an overlapping raw register without declared invalidator): histories of writes, repeated identical writes, device bytes changed behind the cache (overlapping register, device poke), read-back after every write, under implementation-only oracles (every successful write is exactly one device write of the exact image, device range = image right after, refused writes and reads never write, frame); a case is non-trivial when the access succeeds; distinct by full request line",
     );
 
     // ----- node table -----
@@ -767,6 +1056,11 @@ fn main() {
 
     // ----- replay / corpus -----
     fn run_replay(r: &mut Runner, rp: &Value, rng: &mut Rng, src: &str) {
+        if rp.get("cached").is_some() {
+            let (sc, reg0, steps) = CScenario::from_json(rp);
+            run_cached_history(&mut r.rep, &sc, &reg0, &steps, src);
+            return;
+        }
         let sp = &rp["spec"];
         let kind = sp["kind"].as_str().unwrap();
         // same configuration: rebuild exactly this node
@@ -1026,6 +1320,8 @@ fn main() {
             }
         }
     }
+
+    cached_pass(&mut r.rep, &mut rng, thorough);
 
     r.rep.extra.insert("nodes".into(), json!(r.w.specs.len()));
     r.rep.write(&args);
